@@ -30,7 +30,7 @@ theorem avg_regression : decodeRow .avg 1 [100, 200] [10, 20] = [60, 150] := by 
 
 /-- **frame round trip**: any number of rows, any filter type per row (predictor 15 "optimum"
 included), the row above the first being zero. -/
-theorem frame_rt (bpp ppr : Nat) (hb : 1 ≤ bpp) (hsz : bpp * ppr ≤ ISIZE_MAX)
+theorem frame_rt (bpp ppr : Nat) (hb : 1 ≤ bpp) (hsz : bpp * ppr ≤ FLT_ISIZE_MAX)
     (rows : List (Spec.Png.FilterType × Bytes)) (h : ∀ r ∈ rows, r.2.length = bpp * ppr) :
     decodeFrame (encodeImage bpp (bpp * ppr) rows) bpp ppr = .ok (joinRows rows) :=
   frame_rt' bpp ppr hb hsz rows h
@@ -104,8 +104,8 @@ theorem stream_png_rt (ext : Ext) (deflate : Bytes → Bytes) (lzwEnc : Bool →
     (hP : s.dict.get K_DECODEPARMS = some (.dict p))
     (hact : (predGeom p).active = true)
     (hbits : (predGeom p).bits = 8 ∨ (predGeom p).bits = 16)
-    (hsz : (predGeom p).bpp * (predGeom p).columns ≤ ISIZE_MAX)
-    (hmul : (predGeom p).colors * (predGeom p).bits ≤ USIZE_MAX)
+    (hsz : (predGeom p).bpp * (predGeom p).columns ≤ FLT_ISIZE_MAX)
+    (hmul : (predGeom p).colors * (predGeom p).bits ≤ FLT_USIZE_MAX)
     (rows : List (Spec.Png.FilterType × Bytes))
     (hrows : ∀ r ∈ rows, r.2.length = Spec.Png.rowBytesSpec (predGeom p).columns (predGeom p).colors (predGeom p).bits)
     (hc : s.content = encStage deflate lzwEnc (earlyChange (some p)) f
@@ -155,23 +155,37 @@ theorem compress_object_not_longer (deflate : Bytes → Bytes) (s : Strm) (h : c
   have h2 : filterEntrySize ≤ COMPRESS_MARGIN + 1 := by decide
   omega
 
-/-- **compress then decode returns the original bytes** — PARTIAL: under the guard that the stream already has a
-Filter (compress is then the identity) or its DecodeParms does not activate a PNG predictor. -/
-theorem compress_rt_partial (ext : Ext) (deflate : Bytes → Bytes)
+/-- **compress then decode returns the original bytes** — FULL statement (since fix 7763e3b): for EVERY stream
+without a Filter, whatever else its dictionary holds (a `DecodeParms` with a PNG predictor included),
+`get_plain_content (compress s)` is the original content; hypotheses: flate2 decodes what it encoded, zlib output is
+never empty, dictionary keys are distinct (`IndexMap` invariant). -/
+theorem compress_rt (ext : Ext) (deflate : Bytes → Bytes)
     (hfl : ∀ x, ext.inflate (deflate x) = x) (hne : ∀ x, deflate x ≠ [])
-    (s : Strm) (hguard : s.dict.has K_FILTER = true ∨ predictorInactive (decodeParms s.dict)) :
+    (s : Strm) (hnd : s.dict.KeysNodup) (hnf : s.dict.has K_FILTER = false) :
+    getPlainContent ext (compress deflate s) = .ok s.content :=
+  compress_rt_nofilter ext deflate hfl hne s hnd hnf
+
+/-- … and for every stream (Filter present: compress is the identity): the plain content is unchanged -/
+theorem compress_preserves_plain (ext : Ext) (deflate : Bytes → Bytes)
+    (hfl : ∀ x, ext.inflate (deflate x) = x) (hne : ∀ x, deflate x ≠ [])
+    (s : Strm) (hnd : s.dict.KeysNodup) :
     getPlainContent ext (compress deflate s) = getPlainContent ext s :=
-  compress_rt_partial' ext deflate hfl hne s hguard
+  compress_rt' ext deflate hfl hne s hnd
 
 example : getPlainContent toyExt (compress (fun x => 0 :: x) ⟨[(K_LENGTH, .int 3)], [1, 2, 3]⟩) = .ok [1, 2, 3] :=
-  compress_rt_partial toyExt (fun x => 0 :: x) (fun _ => rfl) (fun _ => by simp) ⟨[(K_LENGTH, .int 3)], [1, 2, 3]⟩ (Or.inr (by trivial))
+  compress_rt toyExt (fun x => 0 :: x) (fun _ => rfl) (fun _ => by simp) ⟨[(K_LENGTH, .int 3)], [1, 2, 3]⟩
+    (by unfold Dict.KeysNodup; decide) (by decide)
 
-/-- F-C09-c, the unguarded statement is FALSE of the code: a Filter-less stream with a stale
-`DecodeParms << /Predictor 12 /Columns 4 >>`, codecs satisfying the hypotheses, and compress-then-decode fails. -/
-theorem compress_stale_parms_witness :
-    (∀ x, wExt.inflate (wDeflate x) = x) ∧ (∀ x, wDeflate x ≠ []) ∧ wStale.dict.has K_FILTER = false ∧
-    getPlainContent wExt wStale = .ok wStale.content ∧
-    getPlainContent wExt (compress wDeflate wStale) = .err "invalid PNG filter type" := compress_stale_witness
+/-- regression of the repaired F-C09-c: the former witness stream (`DecodeParms << /Predictor 12 /Columns 4 >>`, no
+Filter, 40 bytes 0x09, codecs that really compress it) loses its DecodeParms and survives compress + decode. -/
+theorem compress_stale_regression :
+    (compress wDeflate wStale).dict.get K_DECODEPARMS = none ∧
+    (compress wDeflate wStale).dict.get K_FILTER = some (.name F_FLATE) ∧
+    getPlainContent wExt (compress wDeflate wStale) = .ok wStale.content := compress_stale_regression'
+
+/-- `IndexMap::swap_remove` as modelled really removes the key (used by `compress_rt`) -/
+theorem dict_remove_removes (d : Dict) (k : Bytes) (hn : d.KeysNodup) : (d.remove k).get k = none :=
+  Dict.get_remove_same_c09 d k hn
 
 /-- **Length = |content| after every content-changing operation** (set_content, set_plain_content, compress when it
 changes the stream, decompress when it succeeds). -/
